@@ -76,10 +76,18 @@ static void init(void)
 					k->op = (int)ops[i]; k->fin = fins[f] == '1'; k->mask = masks[m] == '1'; k->len = lens[l];
 				}
 	if (mc_param("extras", 0)) {
+		/* boundary lengths and opcodes that the quick cross product leaves out */
 		static const struct kind ex[] = {
-			{1, 1, 1, 65536}, {2, 1, 0, 65535}, {1, 0, 1, 65535}, {0, 1, 1, 65536}, {1, 1, 1, 125}, {2, 1, 0, 125}, {9, 1, 1, 125}, {0, 0, 0, 125},
+			{1, 1, 1, 65536}, {2, 1, 0, 65535}, {1, 0, 1, 65535}, {0, 1, 1, 65536},
+			{1, 1, 1, 125}, {2, 1, 0, 125}, {9, 1, 1, 125}, {0, 0, 0, 125},
+			{10, 1, 1, 1}, {10, 1, 0, 0}, {10, 0, 1, 1}, {11, 1, 1, 0}, {11, 0, 0, 1},
 		};
-		for (i = 0; i < (int)(sizeof ex / sizeof ex[0]); i++) kinds[nkinds++] = ex[i];
+		int j;
+		for (i = 0; i < (int)(sizeof ex / sizeof ex[0]); i++) {
+			for (j = 0; j < nkinds; j++)
+				if (kinds[j].op == ex[i].op && kinds[j].fin == ex[i].fin && kinds[j].mask == ex[i].mask && kinds[j].len == ex[i].len) break;
+			if (j == nkinds) kinds[nkinds++] = ex[i];   /* no duplicates: every kind is a distinct input */
+		}
 	}
 }
 
